@@ -212,6 +212,24 @@ func regionOf(c *Check, root *ssa.Function) map[*ssa.Function]bool {
 	return out
 }
 
+// regionEntrants: functions outside the region that call a region helper other than the root
+// (empty when the helpers are private to the root).
+func regionEntrants(c *Check, region map[*ssa.Function]bool, root *ssa.Function) []*ssa.Function {
+	var out []*ssa.Function
+	for f := range region {
+		if f == root {
+			continue
+		}
+		for _, cf := range c.G.CallerFuncs(f) {
+			if !region[engine.TopFunc(cf)] && !region[cf] {
+				out = append(out, cf)
+			}
+		}
+	}
+	sort.Slice(out, func(i, j int) bool { return c.P.FuncName(out[i]) < c.P.FuncName(out[j]) })
+	return out
+}
+
 // regionSites lists the call sites inside the region that leave it.
 func regionSites(c *Check, region map[*ssa.Function]bool) []ssa.CallInstruction {
 	var fns []*ssa.Function
